@@ -34,6 +34,46 @@ pub struct SvcB;
 pub struct SvcC;
 /// two service types that register under one and the same service name
 pub struct SvcD1;
+/// A service whose instance may carry a re-registration order: when the instance is dropped (which
+/// happens inside `remove_service`, while the server forgets its handlers) a second OS thread
+/// registers a fresh instance under the same name. The drop waits until that thread is about to
+/// call `add_service` and a little longer, so the registration starts inside the removal.
+pub struct SvcR {
+    hook: Option<ReAdd>,
+}
+pub struct ReAdd {
+    server: std::sync::Arc<Server>,
+    done: std::sync::mpsc::Sender<()>,
+}
+impl Drop for SvcR {
+    fn drop(&mut self) {
+        if let Some(h) = self.hook.take() {
+            let (started_tx, started_rx) = std::sync::mpsc::channel::<()>();
+            std::thread::spawn(move || {
+                let _ = started_tx.send(());
+                h.server.add_service(SvcR { hook: None });
+                let _ = h.done.send(());
+            });
+            let _ = started_rx.recv_timeout(Duration::from_secs(5));
+            std::thread::sleep(Duration::from_millis(25));
+        }
+    }
+}
+impl RpcService for SvcR {
+    fn service_name() -> &'static str {
+        "svc-r"
+    }
+    fn register_handlers(r: &mut ServiceRegistry<Self>) {
+        r.add_handler::<M1>();
+    }
+}
+#[datacake_rpc::async_trait]
+impl Handler<M1> for SvcR {
+    type Reply = u64;
+    async fn on_message(&self, msg: Request<M1>) -> Result<u64, Status> {
+        Ok(msg.x.value() + 5_000)
+    }
+}
 pub struct SvcD2;
 
 impl RpcService for SvcD1 {
@@ -131,7 +171,10 @@ pub struct C13;
 
 const PORT: u16 = 9100;
 const ALPHABET: u64 = 9;
-const STEP_NAMES: [&str; 9] = ["+A ", "+B ", "+C ", "-A ", "-B ", "-C ", "+D1 ", "+D2 ", "-D "];
+/// steps 9..=11 exist in seeded histories only: 9 add R, 10 remove R, 11 register an R instance that
+/// carries a re-registration order and remove it at once (see `SvcR`)
+const STEPS: u8 = 12;
+const STEP_NAMES: [&str; 12] = ["+A ", "+B ", "+C ", "-A ", "-B ", "-C ", "+D1 ", "+D2 ", "-D ", "+R ", "-R ", "-R(re-added from the drop of its instance) "];
 
 enum Ctl {
     Step(u8, tokio::sync::oneshot::Sender<()>),
@@ -174,10 +217,10 @@ impl Check for C13 {
         "E2: one server host (real datacake-rpc Server over simulated TCP/HTTP2) and one client host (real RpcClient); services A{M1}, B{M1,M2}, C{M2} are added and removed on the running server"
     }
     fn rule(&self) -> &'static str {
-        "Cases: every add/remove history over the alphabet {add A, add B, add C, remove A, remove B, remove C, add D1, add D2, remove \"shared-name\"} (D1 and D2 are two service types registered under one name with different messages) over that 9-step alphabet up to length 4 (7 381 histories, quick) or 5 (66 430, thorough), enumerated completely, plus seeded histories of length 6-14. After every step the client sends all six (service, message) pairs - A/M1, B/M1, B/M2, C/M2 (whose handler overrides the message path; sent by value with send_owned on odd steps), shared-name/M1, shared-name/M2 - sequentially or concurrently. Oracle: a pair is answered by its own handler (reply identifies the service) iff its service was added and not removed since, otherwise refused with ServiceUnavailable; removing one service never changes the answer of another. Non-trivial = the history contains a removal while another service is registered. Distinct = the history itself."
+        "Cases: every add/remove history over the alphabet {add A, add B, add C, remove A, remove B, remove C, add D1, add D2, remove \"shared-name\"} (D1 and D2 are two service types registered under one name with different messages) over that 9-step alphabet up to length 4 (7 381 histories, quick) or 5 (66 430, thorough), enumerated completely, plus seeded histories of length 6-14; one seeded history in four also adds and removes a service R, and once removes an R instance whose drop (which runs inside remove_service) has a second OS thread register a fresh R - the registration starts inside the removal, the step ends when both calls returned, R is then registered and a later plain removal must unregister it. After every step the client sends all seven (service, message) pairs - A/M1, B/M1, B/M2, C/M2 (whose handler overrides the message path; sent by value with send_owned on odd steps), shared-name/M1, shared-name/M2, R/M1 - sequentially or concurrently. Oracle: a pair is answered by its own handler (reply identifies the service) iff its service was added and not removed since, otherwise refused with ServiceUnavailable; removing one service never changes the answer of another. Non-trivial = the history contains a removal while another service is registered. Distinct = the history itself."
     }
     fn assumptions(&self) -> Vec<String> {
-        vec!["registry changes and probes are sequenced (a probe is sent after the step completed); in-flight probes during a change are sent too but only required not to panic or hang".into()]
+        vec!["registry changes and probes are sequenced (a probe is sent after the step completed); in-flight probes during a change are sent too but only required not to panic or hang".into(), "re-registration arm: the registration runs on one real second OS thread; it is started from the drop of the removed instance (inside remove_service), the drop returns 25 ms of real time after that thread announced its call, and the step ends when both calls returned. Whichever of the two calls finishes last, the unchanged registry ends up with R registered, so the verdict does not depend on that timing; a registry that loses the race differently is detected when the timing holds, which it does unless the machine stalls the second thread for 25 ms".into()]
     }
     fn components(&self) -> Vec<(&'static str, &'static str)> {
         vec![("datacake-rpc Server / ServerState / ServiceRegistry / RpcClient / framing, hyper HTTP/2", "real"), ("TCP", "simulated (turmoil)")]
@@ -198,7 +241,20 @@ impl Check for C13 {
         }
         let mut rng = rng_from(case_seed(seed, idx));
         let n = rng.gen_range(6..=14);
-        serde_json::to_value(Scenario { events: (0..n).map(|_| rng.gen_range(0..ALPHABET as u8)).collect(), net_seed: rng.gen(), concurrent_probes: rng.gen_bool(0.5) }).unwrap()
+        let mut events: Vec<u8> = (0..n).map(|_| rng.gen_range(0..ALPHABET as u8)).collect();
+        if rng.gen_bool(0.25) {
+            // re-registration arm: R is added and removed among the other steps; one removal is of
+            // an instance that registers a successor from its drop, and a plain removal follows it
+            for _ in 0..rng.gen_range(1..=3) {
+                let at = rng.gen_range(0..=events.len());
+                events.insert(at, rng.gen_range(9..=10));
+            }
+            let at = rng.gen_range(0..=events.len());
+            events.insert(at, 11);
+            let at2 = rng.gen_range(at + 1..=events.len());
+            events.insert(at2, 10);
+        }
+        serde_json::to_value(Scenario { events, net_seed: rng.gen(), concurrent_probes: rng.gen_bool(0.5) }).unwrap()
     }
     fn isolate(&self, _scenario: &Value) -> bool {
         true
@@ -208,7 +264,7 @@ impl Check for C13 {
             Ok(s) => s,
             Err(e) => return Outcome::invalid(format!("bad scenario: {e}")),
         };
-        if sc.events.iter().any(|s| *s as u64 >= ALPHABET) {
+        if sc.events.iter().any(|s| *s >= STEPS) {
             return Outcome::invalid("bad step");
         }
         let out = Rc::new(RefCell::new(Outcome::default()));
@@ -223,7 +279,7 @@ impl Check for C13 {
         sim.host("server", move || {
             let ctl_rx = ctl_rx.clone();
             async move {
-                let server = Server::listen((IpAddr::from(Ipv4Addr::UNSPECIFIED), PORT).into()).await?;
+                let server = std::sync::Arc::new(Server::listen((IpAddr::from(Ipv4Addr::UNSPECIFIED), PORT).into()).await?);
                 let mut rx = ctl_rx.borrow_mut().take().expect("server host started twice");
                 while let Some(Ctl::Step(s, done)) = rx.recv().await {
                     match s {
@@ -235,7 +291,16 @@ impl Check for C13 {
                         5 => server.remove_service(SvcC::service_name()),
                         6 => server.add_service(SvcD1),
                         7 => server.add_service(SvcD2),
-                        _ => server.remove_service("shared-name"),
+                        8 => server.remove_service("shared-name"),
+                        9 => server.add_service(SvcR { hook: None }),
+                        10 => server.remove_service(SvcR::service_name()),
+                        _ => {
+                            let (done_tx, done_rx) = std::sync::mpsc::channel::<()>();
+                            server.add_service(SvcR { hook: Some(ReAdd { server: server.clone(), done: done_tx }) });
+                            server.remove_service(SvcR::service_name());
+                            // the registration started by the drop has returned before the step counts as done
+                            let _ = done_rx.recv_timeout(Duration::from_secs(20));
+                        },
                     }
                     let _ = done.send(());
                 }
@@ -284,9 +349,15 @@ impl Check for C13 {
                     7 => {
                         reg.insert(5);
                     },
-                    _ => {
+                    8 => {
                         reg.remove(&4);
                         reg.remove(&5);
+                    },
+                    9 | 11 => {
+                        reg.insert(6);
+                    },
+                    _ => {
+                        reg.remove(&6);
                     },
                 }
                 hist.push_str(STEP_NAMES[*s as usize]);
@@ -295,6 +366,7 @@ impl Check for C13 {
                 let cc = RpcClient::<SvcC>::new(chan.clone());
                 let cd1 = RpcClient::<SvcD1>::new(chan.clone());
                 let cd2 = RpcClient::<SvcD2>::new(chan.clone());
+                let cr = RpcClient::<SvcR>::new(chan.clone());
                 let m1 = M1 { x: i as u64 };
                 let m2 = M2 { y: i as u32, s: "probe".into() };
                 let conv = |r: Result<datacake_rpc::DataView<u64>, Status>| -> Result<u64, (ErrorCode, String)> { r.map(|v| v.value()).map_err(|e| (e.code, e.message)) };
@@ -310,7 +382,7 @@ impl Check for C13 {
                             cc.send(&m2).await
                         }
                     };
-                    let (a, b, c, d, e, f) = tokio::join!(ca.send(&m1), cb.send(&m1), cb.send(&m2), c_m2, cd1.send(&m1), cd2.send(&m2));
+                    let (a, b, c, d, e, f, g) = tokio::join!(ca.send(&m1), cb.send(&m1), cb.send(&m2), c_m2, cd1.send(&m1), cd2.send(&m2), cr.send(&m1));
                     vec![
                         ("A/M1", 0, i as u64 + 1_000, conv(a)),
                         ("B/M1", 1, i as u64 + 2_000, conv(b)),
@@ -318,6 +390,7 @@ impl Check for C13 {
                         ("C/M2", 3, i as u64 + 3_000, conv(d)),
                         ("shared-name/M1", 4, i as u64 + 4_000, conv(e)),
                         ("shared-name/M2", 5, i as u64 + 4_500, conv(f)),
+                        ("R/M1", 6, i as u64 + 5_000, conv(g)),
                     ]
                 } else {
                     vec![
@@ -327,6 +400,7 @@ impl Check for C13 {
                         ("C/M2", 3, i as u64 + 3_000, conv(if owned { cc.send_owned(m2c).await } else { cc.send(&m2).await })),
                         ("shared-name/M1", 4, i as u64 + 4_000, conv(cd1.send(&m1).await)),
                         ("shared-name/M2", 5, i as u64 + 4_500, conv(cd2.send(&m2).await)),
+                        ("R/M1", 6, i as u64 + 5_000, conv(cr.send(&m1).await)),
                     ]
                 };
                 let mut o = o2.borrow_mut();
@@ -357,11 +431,11 @@ impl Check for C13 {
             o.anomalies.push(format!("simulation ended with: {e}"));
         }
         let removal_with_other = {
-            let svc_of = |s: u8| -> u8 { match s { 0 | 3 => 0, 1 | 4 => 1, 2 | 5 => 2, _ => 3 } };
+            let svc_of = |s: u8| -> u8 { match s { 0 | 3 => 0, 1 | 4 => 1, 2 | 5 => 2, 9..=11 => 4, _ => 3 } };
             let mut reg: BTreeSet<u8> = BTreeSet::new();
             let mut yes = false;
             for s in &sc.events {
-                let is_remove = matches!(*s, 3 | 4 | 5 | 8);
+                let is_remove = matches!(*s, 3 | 4 | 5 | 8 | 10);
                 if is_remove && reg.iter().any(|r| *r != svc_of(*s)) {
                     yes = true;
                 }
@@ -375,6 +449,7 @@ impl Check for C13 {
         };
         o.nontrivial = removal_with_other;
         o.fault_n("service_removed_while_others_registered", removal_with_other as u64);
+        o.fault_n("service_re_registered_from_a_second_thread_during_its_removal", sc.events.iter().filter(|s| **s == 11).count() as u64);
         let mut f = Fnv::new();
         for s in &sc.events {
             f.u64(*s as u64);
